@@ -44,6 +44,13 @@ pub fn encode_str(enc: &'static Encoding, s: &str) -> Vec<u8> {
 }
 
 pub fn render_content(enc: &'static Encoding, c: &Content) -> Vec<u8> {
+    if let Some(prefix) = truncated_prefix(c) {
+        // the sink replaces the character whose last byte never arrived by U+FFFD, written as
+        // HTML through the output encoder (a numeric reference where it is unrepresentable)
+        let mut out = if c.html { encode_str(enc, prefix) } else { encode_str(enc, &escape_text(prefix)) };
+        out.extend(encode_str(enc, "\u{FFFD}"));
+        return out;
+    }
     if c.html { encode_str(enc, &c.s) } else { encode_str(enc, &escape_text(&c.s)) }
 }
 
@@ -482,7 +489,8 @@ pub fn expected(sc: &Scenario, h: &History, toks: &[Tok], t: &Tree, enc: &'stati
                     }
                 }
             }
-            (Unit::DocEnd, HandlerSpec::End { ops }) => doc_end.extend(ops.iter().cloned()),
+            // DocumentEnd::append takes whole strings only: streaming attributes do not apply
+            (Unit::DocEnd, HandlerSpec::End { ops }) => doc_end.extend(ops.iter().cloned().map(|c| Content { stream: 0, utf8_chunks: 0, ..c })),
             (Unit::EndTag { .. }, _) => {}
             _ => {}
         }
